@@ -66,7 +66,7 @@ def tree_view(fn):
     # the fix-ups and what they call (rotations, colour tests) stay calls; every other static helper is inlined
     keep = balancing_closure(u)
     only = set(n for n, f in u.functions.items() if f.static and n not in keep and n != fn.name)
-    return fn.inlined(only=only) if only else fn
+    return fn.inlined(only=only or ("<no helper>",))      # (always the normal form: local records scalarised even with nothing to inline)
 
 
 class TreeRun:
